@@ -147,6 +147,16 @@ def gen(seed: int, tier: str, idx=None):
     g.emit({"op": "new_doc", "rows": rows, "cols": cols, "hr": min(rng0.choice([0, 1, 1]), rows), "hc": min(rng0.choice([0, 1, 1]), cols)})
     if rng0.random() < 0.3:
         g.emit({"op": "add_table", "d": 0, "s": 0, "rows": rng0.randint(1, 6), "cols": rng0.randint(1, 6), "hr": 1, "hc": 0})
+    if rng0.random() < 0.35:
+        # strokes on and around merged ranges: a third of the runs merge 1-3 ranges before anything is drawn
+        from dsim.profiles.merge import gen_rect
+
+        cfg["strokes_on_merged"] = True
+        cfg["aspects"] = ["grid", "names", "look", "merges"]
+        g.ms.aspects = set(cfg["aspects"])
+        g.ms.cfg["strokes_on_merged"] = True
+        tm0 = g.ms.docs[0].model.sheets[0].tables[0]
+        g.emit({"op": "merge", "d": 0, "s": 0, "t": 0, "rects": [gen_rect(g, tm0, rng) for _ in range(rng0.randint(1, 3))], "as_list": True})
     steps = rng0.randint(5, 30 if tier == "thorough" else 20)
     weights = {"add_style": 4, "set_style": 8, "mutate_style": 2.5, "border": 12, "write": 4, "observe": 5, "save": 3, "restart": 3}
     arm = rng0.choice(["both", "both", "styles", "borders"])
